@@ -143,6 +143,111 @@ def length_mismatch(rng, wj):
     return what + " (length %d -> %d)" % (len(v), len(c[k])), w
 
 
+
+class NotExtractable(Exception):
+    pass
+
+
+def _nat(n):
+    return "(nat_of_int %d)" % n
+
+
+def signatures(wj):
+    """the length signature of a document for Validate.doc_ok (coq/Validate.v): one entry per instantiated object that owns
+    parallel lists.  Absent lists have the declared minimum number of default entries (1 for 'fractions', 0 otherwise).
+    Raises NotExtractable when the document does not have the shape the signature needs (then the model is silent)."""
+    sigs = []
+
+    def L(m, k, default_len=0):
+        v = m.get(k)
+        if v is None:
+            return default_len
+        if not isinstance(v, list):
+            raise NotExtractable(k)
+        return len(v)
+
+    def one_of(m, a, b):
+        if (a in m) == (b in m):
+            raise NotExtractable("%s / %s" % (a, b))     # both or neither: rejected for another reason than a length
+        return L(m, a if a in m else b)
+
+    def model_sigs(kind, m, fmodel):
+        if not isinstance(m, dict):
+            raise NotExtractable(kind)
+        name = m.get("model")
+        if kind == "composition models" and name == "uniform":
+            sigs.append("SigFractions (%s, %s)" % (_nat(L(m, "compositions")), _nat(L(m, "fractions", 1))))
+        elif kind == "grains models" and name == "uniform":
+            sigs.append("SigGrainsUniform (%s, %s, %s)" % (_nat(L(m, "compositions")), _nat(one_of(m, "Euler angles z-x-z", "rotation matrices")),
+                                                           _nat(L(m, "grain sizes"))))
+        elif kind == "grains models" and name == "random uniform distribution":
+            sigs.append("SigGrainsRandom (%s, %s, %s)" % (_nat(L(m, "compositions")), _nat(L(m, "grain sizes")), _nat(L(m, "normalize grain sizes"))))
+        elif kind == "grains models" and name == "random uniform distribution deflected":
+            sigs.append("SigGrainsDeflected (%s, %s, %s, %s, %s)" % (
+                _nat(L(m, "compositions")), _nat(L(m, "grain sizes")), _nat(L(m, "normalize grain sizes")), _nat(L(m, "deflections")),
+                _nat(one_of(m, "basis Euler angles z-x-z", "basis rotation matrices"))))
+        elif kind == "temperature models" and name == "gaussian" and fmodel == "plume":
+            sigs.append("SigGaussian (%s, %s, %s)" % (_nat(L(m, "depths")), _nat(L(m, "centerline temperatures")), _nat(L(m, "gaussian sigmas"))))
+        elif kind == "temperature models" and ((name in ("half space model", "plate model") and fmodel == "oceanic plate")
+                                               or (name == "mass conserving" and fmodel == "subducting plate")):
+            ridges = m.get("ridge coordinates")
+            if not isinstance(ridges, list) or not all(isinstance(r, list) for r in ridges):
+                raise NotExtractable("ridge coordinates")
+            sv = m.get("spreading velocity")
+            if sv is None or isinstance(sv, (int, float)):
+                nv = 1
+            elif isinstance(sv, list):
+                nv = 0
+                for e in sv:
+                    if not (isinstance(e, list) and len(e) == 2 and isinstance(e[1], list) and all(isinstance(r, list) for r in e[1])):
+                        raise NotExtractable("spreading velocity")
+                    nv += sum(len(r) for r in e[1])
+            else:
+                raise NotExtractable("spreading velocity")
+            sigs.append("SigSpreading ([%s], %s)" % ("; ".join(_nat(len(r)) for r in ridges), _nat(nv)))
+
+    kinds = ("temperature models", "composition models", "grains models", "velocity models")
+    for f in wj.get("features", []):
+        if not isinstance(f, dict):
+            raise NotExtractable("feature")
+        fm = f.get("model")
+        if fm == "plume":
+            sigs.append("SigPlume (%s, %s, %s, %s, %s)" % (_nat(L(f, "coordinates")), _nat(L(f, "cross section depths")), _nat(L(f, "semi-major axis")),
+                                                          _nat(L(f, "eccentricity")), _nat(L(f, "rotation angles"))))
+        if fm in ("subducting plate", "fault"):
+            segs = f.get("segments", [])
+            secs = f.get("sections", [])
+            if not isinstance(segs, list) or not isinstance(secs, list) or not all(isinstance(x, dict) for x in segs + secs):
+                raise NotExtractable("segments")
+            for sc in secs:
+                if not isinstance(sc.get("segments", []), list) or not all(isinstance(x, dict) for x in sc.get("segments", [])):
+                    raise NotExtractable("section segments")
+                if not isinstance(sc.get("coordinate", 0), int):
+                    raise NotExtractable("coordinate")
+                sigs.append("SigSection (%s, %s, %s, %s)" % (_nat(L(f, "coordinates")), _nat(sc.get("coordinate", 0)), _nat(len(segs)), _nat(len(sc.get("segments", [])))))
+            allsegs = segs + [sg for sc in secs for sg in sc.get("segments", [])]
+            for kind in kinds:
+                # a list written at feature or section level is only instantiated when a segment inherits it
+                if not all(kind in sg for sg in allsegs):
+                    for m in f.get(kind, []):
+                        model_sigs(kind, m, fm)
+                for sc in secs:
+                    if kind in sc and not all(kind in sg for sg in sc.get("segments", [])):
+                        for m in sc.get(kind, []):
+                            model_sigs(kind, m, fm)
+                for sg in allsegs:
+                    for m in sg.get(kind, []):
+                        model_sigs(kind, m, fm)
+        else:
+            for kind in kinds:
+                ms = f.get(kind, [])
+                if not isinstance(ms, list):
+                    raise NotExtractable(kind)
+                for m in ms:
+                    model_sigs(kind, m, fm)
+    return sigs
+
+
 def byte_mutation(rng, text):
     b = bytearray(text.encode())
     u = rng.random()
@@ -352,6 +457,37 @@ def run(chk):
             v = common.parse_vec(a)
             if v is not None and stream in ("base", "format") and any(not math.isfinite(x) for x in v):
                 viol.append(("a query on an accepted document returns a non-finite number (%s)" % stream, rep))
+    # the model's verdict on the lengths (Validate.doc_ok) against the constructor's, on the unchanged and the length-damaged documents
+    body, who = "", []
+    for di, (p, stream, desc, exp, wi) in enumerate(docs):
+        if stream not in ("base", "lengths") or di not in built:
+            continue
+        try:
+            sg = signatures(json.load(open(p)))
+        except (NotExtractable, ValueError):
+            continue
+        body += "\nlet () = out_str (if doc_ok [%s] then \"ok accept\" else \"ok reject\")\n" % "; ".join(sg)
+        who.append(di)
+    verd = common.run_model(body, tag="c12") if who else []
+    nrej = 0
+    for di, mv in zip(who, verd):
+        p, stream, desc, exp, wi = docs[di]
+        chk.corr["cases"] += 1
+        model_accepts = mv.strip().endswith("accept")
+        nrej += 0 if model_accepts else 1
+        if model_accepts == built[di]:
+            chk.corr["agree"] += 1
+            chk.corr["bit_exact"] += 1
+        else:
+            chk.corr["disagreements"] += 1
+            rep = {"kind": "lengths-verdict", "document": open(p).read()[:20000], "stream": stream, "damage": desc,
+                   "model_verdict": "accept" if model_accepts else "reject", "implementation_accepts": built[di]}
+            if not model_accepts and built[di]:
+                viol.append(("an inconsistent document is accepted: the length checks of Validate.v reject it (%s)" % desc, rep))
+            else:
+                viol.append(("__corr__", rep))
+    chk.counters["documents judged by the length model (Validate.doc_ok)"] = len(who)
+    chk.counters["of those rejected by the model"] = nrej
     # formatting variants: indistinguishable from their base
     base_of = {wi: di for di, d in enumerate(docs) if d[1] == "base" for wi in [d[4]]}
     for di, d in enumerate(docs):
@@ -367,6 +503,11 @@ def run(chk):
     chk.counters["violating documents"] = len(viol)
     for d in docs[1:4]:
         chk.sample({"stream": d[1], "damage": d[2]})
+    corr = [d for w, d in viol if w == "__corr__"]
+    viol = [(w, d) for w, d in viol if w != "__corr__"]
+    if corr and not viol:
+        for d in corr[:3]:
+            chk.violation("correspondence Validate.v (length checks) <-> constructor verdict broken", d, found_input=False)
     seen = set()
     for what, d in viol:
         key = what[:70]
